@@ -20,16 +20,66 @@ Definition lastSampleBelow_hand (limit off dt : F64) (strict : bool) : res (opti
   else if below MAXI then Ok (Some MAXI)
   else bind (guess_of (ffloor (fdiv (fsub limit off) dt))) (fun g => search below g).
 
-Lemma lastSampleBelow_bridge limit off dt strict :
-  lastSampleBelow limit off dt strict = lastSampleBelow_hand limit off dt strict.
-Proof.
-  unfold lastSampleBelow, lastSampleBelow_hand, guess_of, below_of, search.
-  change MAXI with 9007199254740992. cbv beta.
-  destruct (negb (sampleBelow 0 limit off dt strict)); [reflexivity|].
-  destruct (sampleBelow 9007199254740992 limit off dt strict) eqn:E; [reflexivity|].
-  destruct (fge (ffloor (fdiv (fsub limit off) dt)) (ofME 1 53)).
-  { cbn [bind]. rewrite E. reflexivity. }
-  destruct (fge (ffloor (fdiv (fsub limit off) dt)) (ofZ 1)).
-  - cbn [bind]. destruct (toU64 (ffloor (fdiv (fsub limit off) dt))); reflexivity.
-  - cbn [bind]. reflexivity.
-Qed.
+Section Bridge.
+  Variables (limit off dt : F64) (strict : bool).
+  Let below := below_of limit off dt strict.
+
+  Lemma loop3_is_bisect result estimate guess step : forall fuel hi lo,
+    lastSampleBelow_loop3 limit off dt strict result estimate guess step fuel hi lo = bisect below fuel hi lo.
+  Proof.
+    induction fuel as [|f IH]; intros hi lo; [reflexivity|].
+    cbn [lastSampleBelow_loop3 bisect]. rewrite !IH. reflexivity.
+  Qed.
+
+  Lemma loop5_is_gallop_up result estimate guess k2 :
+    (forall hi lo step, k2 hi lo step = bisect below LOOP_FUEL hi lo) ->
+    forall fuel hi lo step,
+    lastSampleBelow_loop5 limit off dt strict result estimate guess k2 fuel hi lo step = gallop_up below fuel hi lo step.
+  Proof.
+    intros Hk. induction fuel as [|f IH]; intros hi lo step; [reflexivity|].
+    cbn [lastSampleBelow_loop5 gallop_up]. rewrite IH, Hk. reflexivity.
+  Qed.
+
+  Lemma loop6_is_gallop_down result estimate guess k2 :
+    (forall hi lo step, k2 hi lo step = bisect below LOOP_FUEL hi lo) ->
+    forall fuel hi lo step,
+    lastSampleBelow_loop6 limit off dt strict result estimate guess k2 fuel hi lo step = gallop_down below fuel hi lo step.
+  Proof.
+    intros Hk. induction fuel as [|f IH]; intros hi lo step; [reflexivity|].
+    cbn [lastSampleBelow_loop6 gallop_down]. rewrite IH, Hk. reflexivity.
+  Qed.
+
+  Lemma k1_is_search result estimate g :
+    (if sampleBelow g limit off dt strict
+     then lastSampleBelow_loop5 limit off dt strict result estimate g
+            (fun hi lo step => lastSampleBelow_loop3 limit off dt strict result estimate g step LOOP_FUEL hi lo)
+            LOOP_FUEL (next_hi g 1) g 1
+     else lastSampleBelow_loop6 limit off dt strict result estimate g
+            (fun hi lo step => lastSampleBelow_loop3 limit off dt strict result estimate g step LOOP_FUEL hi lo)
+            LOOP_FUEL g (next_lo g 1) 1) = search below g.
+  Proof.
+    unfold search. change (sampleBelow g limit off dt strict) with (below g).
+    destruct (below g).
+    - rewrite loop5_is_gallop_up by (intros; apply loop3_is_bisect). reflexivity.
+    - rewrite loop6_is_gallop_down by (intros; apply loop3_is_bisect). reflexivity.
+  Qed.
+
+  Lemma lastSampleBelow_bridge :
+    lastSampleBelow limit off dt strict = lastSampleBelow_hand limit off dt strict.
+  Proof.
+    unfold lastSampleBelow, lastSampleBelow_hand, guess_of.
+    fold below.
+    change (sampleBelow 0 limit off dt strict) with (below 0).
+    change (sampleBelow 9007199254740992 limit off dt strict) with (below MAXI).
+    destruct (negb (below 0)); [reflexivity|].
+    destruct (below MAXI) eqn:EM; [reflexivity|].
+    cbv zeta.
+    destruct (fge (ffloor (fdiv (fsub limit off) dt)) (ofME 1 53)).
+    { cbn [bind]. rewrite <- (k1_is_search None (ffloor (fdiv (fsub limit off) dt)) MAXI).
+      change (sampleBelow MAXI limit off dt strict) with (below MAXI). rewrite EM. reflexivity. }
+    destruct (fge (ffloor (fdiv (fsub limit off) dt)) (ofZ 1)).
+    - destruct (toU64 (ffloor (fdiv (fsub limit off) dt))) as [g| |]; cbn [bind]; [|reflexivity|reflexivity].
+      exact (k1_is_search None _ g).
+    - cbn [bind]. exact (k1_is_search None _ 0).
+  Qed.
+End Bridge.
